@@ -1549,10 +1549,10 @@ pub fn run(mut ctx: Ctx) -> ! {
                 "seq": "sampled (not exhaustive): generated call histories / thread schedules",
             }),
         );
-        let cases = ctx.tier.scale(1000, 12_000);
+        let cases = ctx.tier.scale(800, 12_000);
         ctx.run_tapes("seq", cases, 300, |t| seq_in_child(t, false));
         // histories that contain a call ICU4X cannot build (documented `time_length: full|long`)
-        let cases = ctx.tier.scale(150, 2_000);
+        let cases = ctx.tier.scale(120, 2_000);
         ctx.run_tapes("seq-unsupported", cases, 300, |t| seq_in_child(t, true));
     }
     ctx.finish(
